@@ -115,7 +115,7 @@ func doSplit() {
 
 // ---------------------------------------------------------------- values
 
-// a segment: ["lit", body] | ["dd"] | ["emb", exprsrc, type] | ["tail$"]
+// a segment: ["lit", body] | ["raw", body with a lone "$x"] | ["dd"] | ["emb", exprsrc, type] | ["tail$"]
 type vcase struct {
 	Quote string     `json:"quote"` // "d" or "r"
 	Segs  [][]string `json:"segs"`
@@ -170,7 +170,7 @@ func (c *vcase) literal() string {
 	b.WriteString(q)
 	for _, s := range c.Segs {
 		switch s[0] {
-		case "lit":
+		case "lit", "raw":
 			b.WriteString(s[1])
 		case "dd":
 			b.WriteString("$$")
@@ -193,7 +193,7 @@ func (c *vcase) explicit() string {
 	var parts []string
 	for _, s := range c.Segs {
 		switch s[0] {
-		case "lit":
+		case "lit", "raw":
 			parts = append(parts, q+s[1]+q)
 		case "dd", "tail$":
 			parts = append(parts, `"$"`)
